@@ -1,12 +1,14 @@
 package main
 
 import (
+	"bytes"
 	"context"
 	"encoding/hex"
 	"fmt"
 	"strings"
 
 	"github.com/pulumi/esc/eval"
+	"gopkg.in/yaml.v3"
 )
 
 func init() { register("C12", c12) }
@@ -51,6 +53,35 @@ func c12Rewrite(op string, src []byte, ciph cyToyCipher) (out []byte, err error,
 	return
 }
 
+// c12YamlAlone: the control run.  yaml.v3 alone - no esc code - parses the text, writes the node tree back with the
+// encoder settings eval/crypt.go uses (indent 2) and parses that again; the projection of that tree tells which
+// comments of this particular document yaml.v3 itself gives back.  nil when yaml.v3 cannot do it.
+func c12YamlAlone(src []byte) (tree any) {
+	defer func() {
+		if r := recover(); r != nil {
+			tree = nil
+		}
+	}()
+	var doc yaml.Node
+	if err := yaml.Unmarshal(src, &doc); err != nil {
+		return nil
+	}
+	var b bytes.Buffer
+	enc := yaml.NewEncoder(&b)
+	enc.SetIndent(2)
+	if err := enc.Encode(&doc); err != nil {
+		return nil
+	}
+	if err := enc.Close(); err != nil {
+		return nil
+	}
+	t, e := cyYamlTree(b.Bytes())
+	if e != "" {
+		return nil
+	}
+	return t
+}
+
 // C12: run the real eval.EncryptSecrets / eval.DecryptSecrets on a YAML text and report the yaml.v3 node tree of
 // the input and of the output, the number of load diagnostics of the input (eval.LoadYAMLBytes), whether the output
 // loads without new diagnostics, and the output text.
@@ -66,6 +97,9 @@ func c12(c map[string]any) map[string]any {
 		return res
 	}
 	res["in"] = in
+	if ctl := c12YamlAlone(src); ctl != nil {
+		res["ctl"] = ctl
+	}
 	din, _, _ := cyLoadDiags(src)
 	res["in_diags"] = len(din)
 	op := str(c, "op")
